@@ -391,6 +391,31 @@ func raceScenarios() []raceScenario {
 			refcodec.Encode(&refcodec.Packet{Type: refcodec.SUBSCRIBE, ID: 4, Topics: [][]byte{[]byte("b")}, QoSs: []byte{0}})...))
 		vsched.Quiesce()
 	}, false})
+	// (viii-a) the same with a successor whose CONNECT is as long as (and shorter than) the one the
+	// session holds: whatever buffer the session keeps the stored CONNECT in must not be written
+	// while the ending connection still publishes its will from it
+	for _, w2 := range []string{"other", "2nd"} {
+		w2 := w2
+		out = append(out, raceScenario{fmt.Sprintf("cut || successor resumes the session with a CONNECT of %d bytes less", 5-len(w2)), func() {
+			t := newTD()
+			wt := t.connect("W", 0, 65535, false)
+			t.subscribe("W", "w/#", 1)
+			x1, err := t.w.Dial("X1")
+			if err != nil || wt == nil {
+				return
+			}
+			x1.Send(ConnectPacket(ConnectOpts{ClientID: "x", Clean: false, KeepAlive: 600, Will: &Will{"w/x", "first", 1, false}}))
+			t.w.Settle()
+			x2, err := t.w.Dial("X2")
+			if err != nil || vsched.Failed() {
+				return
+			}
+			vsched.Mark()
+			x1.Cut()
+			x2.Conn.Write(refcodec.Encode(ConnectPacket(ConnectOpts{ClientID: "x", Clean: false, KeepAlive: 600, Will: &Will{"w/x", w2, 1, false}})))
+			vsched.Quiesce()
+		}, false})
+	}
 	// (viii-b) the same with a DISCONNECT packet instead of the cut: the old connection's
 	// processor takes the will back while the successor's handshake looks at the stored CONNECT
 	out = append(out, raceScenario{"DISCONNECT || successor resumes the session", func() {
